@@ -54,6 +54,9 @@ type scenario struct {
 	// TCPLike: the transport also offers CloseRead and CloseWrite, as *net.TCPConn does (optional methods that code may look for
 	// with a type assertion): everything the property says holds over such a transport too
 	TCPLike bool `json:"transport_offers_closeread_closewrite,omitempty"`
+	// Peeked: the transport hands out bytes it has already received without looking at its read deadline first (a buffering
+	// wrapper): a deadline that NewConn set on it and did not take back shows on the next real read
+	Peeked bool `json:"transport_serves_buffered_bytes_first,omitempty"`
 }
 
 const priorDeadline = 100 * unit
@@ -120,6 +123,7 @@ func run(sc scenario, choose vs.Chooser, traceOn bool) (*observation, *vs.Sched,
 	t := vnet.New()
 	t.Blocked = sc.BlockedWrites
 	t.DeadlineErr = sc.DeadlineErr
+	t.ServeBufferedFirst = sc.Peeked
 	if sc.SlowDeadline {
 		t.DeadlineDelay = unit
 	}
@@ -426,6 +430,12 @@ func scenarios() []scenario {
 				// (the connection is used after the return: a read side that was shut down meanwhile shows here)
 				out = append(out, scenario{Hello: h, Cancel: c, Keys: true, TCPLike: true, Retry: true}, scenario{Hello: h, Cancel: c, Keys: true, TCPLike: true, PriorDeadline: true})
 			}
+		}
+	}
+	// a transport that serves what it has buffered before it looks at its deadline
+	for _, h := range []string{"buffered", "two-records", "late"} {
+		for _, c := range []string{"never", "before-call", "t0", "t1", "after-return", "deadline2"} {
+			out = append(out, scenario{Hello: h, Cancel: c, Keys: true, Peeked: true}, scenario{Hello: h, Cancel: c, Keys: true, Peeked: true, Retry: true}, scenario{Hello: h, Cancel: c, Keys: true, Peeked: true, PriorDeadline: true})
 		}
 	}
 	// a transport whose SetDeadline takes a second: the watcher's call may be under way when the hello has been read
